@@ -11,6 +11,14 @@ STATS = {'queries': 0, 'time': 0.0, 'by_backend': {}, 'unknown': 0, 'feas': 0, '
          'cross_checked': 0, 'cross_agree': 0, 'cross_undecided': 0, 'cross_disagree': 0}
 
 
+# obligations of the function under verification that were not proved so far (reset per function by the driver): once a
+# function has failed a few, the expensive parts of the search (long budgets, small-pre-state models, other solvers) are
+# skipped for its remaining obligations -- the function is not verified anyway, and a badly broken function would otherwise
+# cost minutes per obligation
+FAILED = [0]
+FAILED_LIMIT = 2
+
+
 def timeout_ms():
     tier = os.environ.get('VERIF_TIER', 'quick')
     return int(os.environ.get('PYVC_TIMEOUT_MS', '90000' if tier == 'thorough' else '25000'))
@@ -285,7 +293,17 @@ def _skolemise_seq_eq(goal):
 
 
 def _prove1(assumptions, goal, timeout):
+    v, b, m = _prove1_inner(assumptions, goal, timeout)
+    if v != 'proved':
+        FAILED[0] += 1
+    return v, b, m
+
+
+def _prove1_inner(assumptions, goal, timeout):
     backend = 'z3-%s' % z3.get_version_string()
+    cheap = FAILED[0] >= FAILED_LIMIT
+    if cheap:
+        timeout = min(timeout, 3000)
     if z3.is_true(goal):
         return 'proved', 'simplifier', None
     goal = _skolemise_bytes_eq(goal)
@@ -311,7 +329,9 @@ def _prove1(assumptions, goal, timeout):
     if r == z3.unsat:
         return ('proved', backend, None) if _cross_check(s) else ('unknown', 'solver-disagreement', ('z3 4.8.12 answers sat', None))
     reason = None
-    if r == z3.sat:
+    if r == z3.sat and cheap:
+        reason = 'sat answer of the API solver (not confirmed: short budget)'
+    elif r == z3.sat:
         c, who = _confirm_sat(s)
         if c == 'sat':
             return 'refuted', backend, s.model()
@@ -319,6 +339,8 @@ def _prove1(assumptions, goal, timeout):
             return 'proved', who, None
         reason = 'sat answer of the API solver not confirmed by a second solver process'
     reason = reason or s.reason_unknown()
+    if cheap:
+        return 'unknown', 'all', (reason + ' (short budget: this function already has unproved obligations)', weak_model)
     # counterexample search over small pre-states: the quantified invariants of the entry state become trivial when
     # the dictionaries / lists of the pre-state are empty or singletons.  A model found here satisfies the complete
     # (exact) formula, so it is a genuine refutation.
